@@ -162,6 +162,7 @@ type precCase struct {
 	logBytes  []byte
 	haveLog   bool
 	large     bool
+	decoys    int // events of another type carrying a well-formed SP800-155 Event3 (never reference-manifest events)
 	medium    logMedium         // what holds the log file (drawn last, so that the rest of the case does not depend on it)
 	rimOffset int               // offset of the first RIM event in the event stream (after the header record)
 	varFiles  map[string][]byte // file name under the efivarfs root -> content
@@ -311,7 +312,29 @@ func (pc *precCase) build(r *rand.Rand, id int) {
 	firstRIM := -1
 	// a quarter of the logs are long: 10-400 ordinary events before and after the RIM events
 	pc.large = r.IntN(4) == 0
+	// decoys (round 7, C16-r7m1): events of another type than EV_NO_ACTION whose data nevertheless is a well-formed
+	// SP800-155 Event3 with a raw or URI locator. Only EV_NO_ACTION events are reference-manifest events, so the model
+	// ignores them; an extractor that takes one returns the decoy bytes or asks for a URL no measurement justifies.
+	// Drawn from their own PRNG: the other events of every case stay what they were.
+	rdec := rand.New(rand.NewPCG(uint64(id), 0xdec0dec0))
+	decoy := func() {
+		if pc.shape.file != "" || rdec.IntN(3) != 0 {
+			return
+		}
+		typ := []uint32{0x00000006, evEFIAction, evPostCode, 0x0000000D, 0x80000003}[rdec.IntN(5)]
+		e := &sp155{PlatMfrID: 11129, RimGUID: rim, PlatMfrStr: googleMfr, PlatModel: "Google Compute Engine", FwMfrStr: googleMfr,
+			FwMfrID: 11129, FwVersion: "2.7", LocType: locRaw, Loc: []byte(fmt.Sprintf("DECOY:%d:%d", id, len(evs)))}
+		if pc.mfrOpt != "" {
+			e.PlatMfrStr, e.FwMfrStr = pc.mfrOpt, pc.mfrOpt
+		}
+		if rdec.IntN(2) == 0 {
+			e.LocType, e.Loc = locURI, []byte(fmt.Sprintf("https://decoy.example.test/%d/%d", id, len(evs)))
+		}
+		evs = append(evs, logEvent{PCR: uint32(rdec.IntN(8)), Type: typ, Data: e.encode()})
+		pc.decoys++
+	}
 	addNoise := func() {
+		decoy()
 		if pc.large {
 			n := 10 + r.IntN(60)
 			if r.IntN(4) == 0 {
@@ -759,6 +782,9 @@ func runPrec(c *core.Ctx, sc *scratch, i, idx int, st *precStats) {
 				st.localPipe++
 			}
 		}
+	}
+	if pc.decoys > 0 && pc.haveLog {
+		c.Count("precedence/logs with events of another type carrying a well-formed SP800-155 Event3 (decoys, not locators)", 1)
 	}
 	if pc.large && pc.haveLog {
 		c.Max("precedence/longest-log-bytes", int64(len(pc.logBytes)))
